@@ -99,7 +99,7 @@ def shards(tier, seed):
 
 
 def run_shard(ctx, shard):
-    n = 140 if ctx.tier == 'quick' else 400
+    n = 140 if ctx.tier == 'quick' else 900
     A.collect(ctx, X.models(min_dex=2), run_model, n, salt=shard[1], budget_s=6.0)
 
 
